@@ -250,6 +250,34 @@ def _chi2_case(ctx, c):
     gs = float(np.max(np.abs(A.T * w) @ (np.abs(b) + np.abs(A) @ np.abs(impl['acoeff']))))
     if np.max(np.abs(grad)) > 1e-9 * max(gs, 1e-300) * max(1.0, np.linalg.cond(A * sq[:, None]) ** 2):
         ctx.violate('chi2:gradient', 'normal equations not satisfied: A^T W (b - A x) = %s' % _lst(grad), full)
+    # --- "for every weight vector": the same system with every sqivar multiplied by an exact power of two s (fluxes in cgs units,
+    # raw counts): acoeff, yfit and dof are those of the unscaled call, chi2 is s^2 times, covar and var 1/s^2 times it - compared
+    # RELATIVE to their own size (seeded change C15-21: a rescaling branch for |sqivar| > 1e8 that forgets covar / var)
+    k = c['gen'].get('wscale')
+    if k:
+        sc = 2.0 ** k
+        try:
+            o2 = computechi2(b, sq * sc, Aimpl)
+            g2 = {kk: np.asarray(getattr(o2, kk), dtype=float) for kk in order}
+        except Exception as e:
+            ctx.violate('chi2:weight-scale:exception', 'computechi2 raised %r with sqivar scaled by 2^%d' % (e, k), dict(full, wscale=k))
+            g2 = None
+        ctx.count('chi2:weight-scale:2^%d' % k)
+        if g2 is not None:
+            def rel(u, v):
+                u, v = np.asarray(u, dtype=float), np.asarray(v, dtype=float)
+                return u.shape == v.shape and bool(np.all(np.abs(u - v) <= 1e-7 * np.maximum(np.max(np.abs(v), initial=0.0), 1e-300)))
+            badk = [kk for kk, want in (('acoeff', impl['acoeff']), ('yfit', impl['yfit']), ('covar', np.asarray(impl['covar']) / sc ** 2),
+                                        ('var', np.asarray(impl['var']) / sc ** 2)) if not rel(g2[kk], want)]
+            if abs(float(g2['chi2']) - impl['chi2'] * sc ** 2) > 1e-7 * impl['chi2'] * sc ** 2 + _chi2_tol(chie, b, sq, cnd) * sc ** 2:
+                badk.append('chi2')
+            if int(g2['dof']) != impl['dof']:
+                badk.append('dof')
+            if badk:
+                ctx.violate('chi2:weight-scale:' + '+'.join(badk),
+                            'with every sqivar multiplied by 2^%d the results %s are not the exactly rescaled results of the unscaled system '
+                            '(covar[0,0] %r, expected %r)' % (k, badk, float(g2['covar'][0, 0]), float(np.asarray(impl['covar'])[0, 0] / sc ** 2)),
+                            dict(full, wscale=k))
     # --- svd contract sampled on LAPACK's output (spectral form assumed by covar_is_inverse)
     if not _near(o.uu, o.vv.T, 1e-6) or not (o.ww > 0).all():
         ctx.count('chi2:svd-contract-miss')
@@ -341,6 +369,8 @@ def _chi2(ctx, cases=None):
                 cases[-1]['gen']['adtype'] = 'float32'
             if ctx.rng.random() < 0.15:
                 cases[-1]['gen']['zerorow'] = True
+            if i % 4 == 0:
+                cases[-1]['gen']['wscale'] = (-40, 30, 40, 60, -20)[(i // 4) % 5]
         # square full-rank systems (as many data as templates, every weight positive: dof 0, chi2 0, the solution of A x = b)
         for i in range(ctx.n(20, 400)):
             m = ctx.rng.choice([1, 2, 3, 4, 5])
@@ -1052,8 +1082,41 @@ def _pca(ctx, cases=None):
     _run_stream(ctx, _pca_case, cases)
 
 
+def _pca_many(ctx, cases=None):
+    """oracle only: samples of several hundred spectra (the per-pixel count of good spectra exceeds every 8-bit counter;
+    seeded change C15-19).  Too large for the model's dense eigen-solver; usemask / outmask / shapes are judged directly."""
+    from pydl.pydlspec2d.spec1d import pca_solve
+    if cases is None:
+        cases = [{'stream': 'pca_many', 'nobj': n, 'npix': 14, 'nseed': ctx.rng.getrandbits(32)} for n in ctx.n([300, 517], [256, 300, 517, 1030])]
+    for c in cases:
+        rs = np.random.RandomState(c['nseed'])
+        nobj, npix = c['nobj'], c['npix']
+        xs = np.linspace(0, 1, npix)
+        flux = np.outer(rs.standard_normal(nobj), np.sin(3 * xs)) + np.outer(0.3 * rs.standard_normal(nobj), np.cos(5 * xs)) \
+            + 0.02 * rs.standard_normal((nobj, npix)) + rs.uniform(-1, 1, size=(nobj, 1))
+        ivar = rs.uniform(0.5, 2.0, size=(nobj, npix))
+        ivar[rs.uniform(size=(nobj, npix)) < 0.03] = 0.0
+        ivar[: nobj - 200, 3] = 0.0          # one pixel good in exactly 200 spectra, the others in nearly all
+        ctx.seen(c)
+        try:
+            with core.time_limit(120):
+                out = pca_solve(flux, ivar, maxiter=0, niter=1, nkeep=2)
+        except Exception as e:
+            ctx.violate('pca:exception:many:' + core.exc_kind(e), 'pca_solve raised %r on %d spectra' % (e, nobj), c)
+            continue
+        ctx.count('pca_many:nobj=%d' % nobj)
+        want = (ivar != 0).sum(0)
+        if not np.array_equal(np.asarray(out['usemask']).astype(np.int64), want):
+            ctx.violate('pca:usemask', 'usemask %s is not the number of good spectra per pixel %s (%d spectra)' % (
+                _lst(out['usemask']), _lst(want), nobj), c)
+        if not np.array_equal(np.asarray(out['outmask']), ivar != 0):
+            ctx.violate('pca:outmask', 'outmask differs from (newivar != 0) without rejection (%d spectra)' % nobj, c)
+        if np.asarray(out['acoeff']).shape != (nobj, 2) or np.asarray(out['flux']).shape != (2, npix):
+            ctx.violate('pca:shape', 'unexpected shapes for %d spectra' % nobj, c)
+
+
 # ---------------------------------------------------------------- the check
-STREAMS = {'chi2': _chi2, 'chi2v': _chi2v, 'pcomp': _pcomp, 'hmf_step': _hmf_step, 'hmf_solve': _hmf_solve, 'pca': _pca}
+STREAMS = {'pca_many': _pca_many, 'chi2': _chi2, 'chi2v': _chi2v, 'pcomp': _pcomp, 'hmf_step': _hmf_step, 'hmf_solve': _hmf_solve, 'pca': _pca}
 
 
 def _quiet():
